@@ -19,6 +19,10 @@ type CV struct {
 	Const *big.Int
 	IsNil bool
 	Val   *Val
+	Addr  *Loc // for named variables living in memory: where they live
+	// conditional between two untyped constants: sort chosen by the context
+	CondC        Term
+	CondA, CondB *big.Int
 }
 
 type CEnv struct {
@@ -80,7 +84,18 @@ func (x *Exec) contractEnv(fr *Frame, st *State) *CEnv {
 			continue
 		}
 		if v.Loc != nil {
-			env.vars[name] = &CV{T: x.load(st, v.Loc), Ty: v.Loc.T}
+			env.vars[name] = &CV{T: x.load(st, v.Loc), Ty: v.Loc.T, Addr: v.Loc}
+		}
+	}
+	// plain SSA values that carry a source name (single assignment), via DebugRef
+	for name, v := range fr.debugNames {
+		if _, ok := env.vars[name]; ok {
+			continue
+		}
+		if val, ok := fr.env[v]; ok {
+			cv := x.cvOfVal(val)
+			cv.Ty = v.Type()
+			env.vars[name] = cv
 		}
 	}
 	return env
@@ -111,6 +126,9 @@ func (x *Exec) evalBool(env *CEnv, e CExpr) (Term, error) {
 
 // cvTerm materialises a contract value; untyped constants take the sort of `like`.
 func (x *Exec) cvTerm(cv *CV, like *CV) Term {
+	if cv.CondA != nil && cv.T.S == "" {
+		return Ite(cv.CondC, x.cvTerm(&CV{Const: cv.CondA}, like), x.cvTerm(&CV{Const: cv.CondB}, like))
+	}
 	if cv.Const != nil && cv.T.S == "" {
 		w := 64
 		if like != nil && like.T.S != "" && like.T.Sort.BVWidth() > 0 {
@@ -241,6 +259,9 @@ func (x *Exec) eval(env *CEnv, e CExpr) (*CV, error) {
 		b, err := x.eval(env, n.B)
 		if err != nil {
 			return nil, err
+		}
+		if a.Const != nil && b.Const != nil && a.T.S == "" && b.T.S == "" {
+			return &CV{CondC: c, CondA: a.Const, CondB: b.Const}, nil
 		}
 		at, bt := x.cvTerm(a, b), x.cvTerm(b, a)
 		ty := a.Ty
@@ -537,8 +558,8 @@ func (x *Exec) evalQuant(env *CEnv, n *CQuant) (*CV, error) {
 		name := fmt.Sprintf("%s!q%d", v.Name, nQuant)
 		var srt Sort
 		var ty types.Type
-		if v.Type == "mathint" {
-			srt = SInt
+		if ps, ok := pseudoSorts[v.Type]; ok {
+			srt = ps
 		} else {
 			t, err := x.resolveType(env, v.Type)
 			if err != nil {
@@ -1097,7 +1118,9 @@ func (x *Exec) compileSpec(env *CEnv, sp *SpecFunc) (*compiledSpec, error) {
 	for _, p := range sp.Params {
 		var ty types.Type
 		srt := SInt
-		if p.Type != "mathint" {
+		if ps, ok := pseudoSorts[p.Type]; ok {
+			srt = ps
+		} else {
 			t, err := x.resolveType(penv, p.Type)
 			if err != nil {
 				return nil, err
@@ -1110,8 +1133,8 @@ func (x *Exec) compileSpec(env *CEnv, sp *SpecFunc) (*compiledSpec, error) {
 		binders = append(binders, fmt.Sprintf("(%s %s)", pn, srt))
 		penv.vars[p.Name] = &CV{T: Term{pn, srt}, Ty: ty}
 	}
-	if sp.Ret == "mathint" {
-		cs.retS = SInt
+	if ps, ok := pseudoSorts[sp.Ret]; ok {
+		cs.retS = ps
 	} else {
 		t, err := x.resolveType(penv, sp.Ret)
 		if err != nil {
@@ -1319,3 +1342,6 @@ func partName(name string, i, n int) string {
 	}
 	return fmt.Sprintf("%s.%c", name, 'a'+i)
 }
+
+// sorts that have no Go type: mathematical integers and the ghost database arrays
+var pseudoSorts = map[string]Sort{"mathint": SInt, "curset": sCur, "rowmap": sRows, "hashmap": sHash, "hashv": "HashV"}
